@@ -228,6 +228,37 @@ def match(pat, g, env):
     return all(match(a, b, env) for a, b in zip(pat[2], g[2]))
 
 
+def walk(t, env):
+    while t[0] == 'v' and t[1] in env:
+        t = env[t[1]]
+    return t
+
+
+def unifiable(a, b, env):
+    a, b = walk(a, env), walk(b, env)
+    if a == b:
+        return True
+    if a[0] == 'v':
+        env[a[1]] = b
+        return True
+    if b[0] == 'v':
+        env[b[1]] = a
+        return True
+    if a[0] != 's' or b[0] != 's' or a[1] != b[1] or len(a[2]) != len(b[2]):
+        return False
+    return all(unifiable(x, y, env) for x, y in zip(a[2], b[2]))
+
+
+def deterministic_case(item):
+    """(=)/3 or dif/3 on arguments that are identical or not unifiable, nothing posted before:
+    exactly one answer and NO choice point may be left (the point of library(reif))."""
+    c = item["a1"]
+    if item["kind"] != 'cond' or item["pre"] or c[1] not in ('=', 'dif'):
+        return False
+    a, b = c[2]
+    return a == b or not unifiable(a, b, {})
+
+
 def holds(c, th):
     f, a = c[1], c[2]
     if f == '=':
@@ -601,6 +632,11 @@ def run(ctx):
             continue
         si, sx = si[0], sx[0]
         stats["items"] += 1
+        if deterministic_case(it):
+            stats["deterministic_cases"] = stats.get("deterministic_cases", 0) + 1
+            if len(si) != 1 or ir.strip().endswith(";; false"):
+                report("violation", {"op": it["kind"], "defect": "choice-point-left-on-decided-equation"},
+                       "%s must give exactly one answer and leave no choice point, got %s" % (q1, ir), it)
         stats["answers"] += len(si)
         per_kind[it["kind"]] = per_kind.get(it["kind"], 0) + 1
         if "dif" in (ir or ""):
